@@ -137,7 +137,7 @@ def parseAttribute (a : AttrShape) : Prog (Nat × Option AAttr) := do
       | none => pure (ret, none)
       | some value => do
         -- `attr_name->type` is read when the value is not empty
-        if value.len > 0 then deref (name.map (·.hdr))
+        derefWhen (value.len > 0) (name.map (·.hdr))
         let (value, ok) ← (if value.len > 0 then bufAppendChar value 0 else pure (value, true))
         if !ok then do
           nameDestroy name
